@@ -567,8 +567,21 @@ func (r *Run) Returns(fnName string, want []string, why string) {
 		ws["return "+r.X(w)] = true
 	}
 	var missing, extra, tolerated []string
+	newFail := false
+	for g := range got {
+		if !ws[g] && onlyFail[g] {
+			newFail = true
+		}
+	}
 	for w := range ws {
 		if !got[w] {
+			// a frozen refusal (zero results + a sentinel or fresh error) that is now spelled through a
+			// new failure return — e.g. the check moved into a helper whose error is passed on; the
+			// rejection itself is pinned by the guard rules
+			if newFail && failureOnlyForm(w) {
+				tolerated = append(tolerated, "(was) "+w)
+				continue
+			}
 			missing = append(missing, w)
 		}
 	}
@@ -615,6 +628,26 @@ func (r *Run) Branch(fnName, cond, why string) {
 		if g.Cond.String() == cond || g.Cond.Negate().String() == cond {
 			r.pass("K3-branch", fnName, "branches on "+cond, "", why, g.File, g.Line)
 			return
+		}
+	}
+	// the branch may have moved into a helper that is new relative to the reviewed tree
+	if knownFuncs != nil {
+		for _, cs := range r.P.Calls(fn, false) {
+			g := cs.Instr.Common().StaticCallee()
+			if g == nil || g.Blocks == nil || cs.Path == nil {
+				continue
+			}
+			if n := r.P.FuncName(g); n == "" || knownFuncs[n] {
+				continue
+			}
+			hasRecv := g.Signature.Recv() != nil
+			for _, gg := range r.P.Info(g).guards {
+				c := gg.Cond.Subst(cs.Path.Args, hasRecv)
+				if c.String() == cond || c.Negate().String() == cond {
+					r.pass("K3-branch", fnName, "branches on "+cond, "in the new helper "+r.P.FuncName(g), why, gg.File, gg.Line)
+					return
+				}
+			}
 		}
 	}
 	var have []string
@@ -734,6 +767,12 @@ func (r *Run) HasPrefix(fnName, prefix, why string) {
 		}
 	}
 	file, line := r.P.FnPos(fn)
+	for c := range r.P.NewHelperEffects(fn) {
+		if strings.HasPrefix(c, prefix) {
+			r.pass("K4-effect", fnName, prefix+"…", "performed through a helper that is new relative to the reviewed tree", why, file, line)
+			return
+		}
+	}
 	r.viol("K4-effect", fnName, prefix+"…", fmt.Sprintf("%s no longer performs an effect of the form `%s…`", fnName, prefix), why, file, line)
 }
 
@@ -1709,4 +1748,25 @@ func (r *Run) LoopBodyStraight(fnName, coll, why string) {
 	}
 	f2, l2 := r.P.Pos(lastInstr(header).(*ssa.If).Cond.Pos())
 	r.pass("K2-loop-straight", fnName, construct, "", why, f2, l2)
+}
+
+// failureOnlyForm: "return nil, 0, …, <sentinel error>" — every result but the last is a zero value
+// and the last names an error (Err…/errors.Errorf(…)).
+func failureOnlyForm(f string) bool {
+	comps := splitTop(strings.TrimPrefix(f, "return "))
+	if len(comps) == 0 {
+		return false
+	}
+	last := comps[len(comps)-1]
+	if !(strings.Contains(last, ".Err") || strings.HasPrefix(last, "errors.Errorf(") || strings.Contains(last, "Error(")) {
+		return false
+	}
+	for _, c := range comps[:len(comps)-1] {
+		switch {
+		case c == "nil", c == "0", c == "false", c == `""`, strings.HasPrefix(c, "zero("):
+		default:
+			return false
+		}
+	}
+	return true
 }
